@@ -70,7 +70,8 @@ M = [
     ("C12-pad", "C12", "cnvlib/antitarget.py", "pad_size = 2 * INSERT_SIZE", "pad_size = INSERT_SIZE"),
     ("C12-min-size-ignored", "C12", "cnvlib/antitarget.py", ".subdivide(avg_bin_size, min_bin_size)", ".subdivide(avg_bin_size, 0)"),
     ("C12-target-zero-width", "C12", "cnvlib/target.py", "tgt_arr = tgt_arr[tgt_arr.start != tgt_arr.end]", "tgt_arr = tgt_arr[tgt_arr.start < tgt_arr.end - 1]"),
-    ("C09-chromosome-dtype-inferred", "C09", "cnvlib/coverage.py", '        dtype={"chromosome": str},\n', ''),
+    ("C09-chromosome-dtype-inferred", "C09", "cnvlib/coverage.py", 'dtype={"chromosome": str, "gene": str},', 'dtype={"gene": str},'),
+    ("C09-names-default-na", "C09", "cnvlib/coverage.py", '        keep_default_na=False,\n        na_values=[""],\n', ''),
     ("C12-annotate-by-label", "C12", "cnvlib/target.py", 'annotation.into_ranges(tgt_arr, "gene", "-").values', 'annotation.into_ranges(tgt_arr, "gene", "-")'),
     # ---- C13
     ("C13-join-le", "C13", "cnvlib/access.py", "if gap < min_gap_size:", "if gap <= min_gap_size:"),
